@@ -746,7 +746,7 @@ def base_combo(combo: str, irf_kind: str):
         b.decay_parallel("mc_c", ["s1", "s2"])
         inner = {("mc_labels", "mc_a"): 3, ("mc_labels", "mc_b"): 2}
     b.dataset("dataset_1", ["mc_a", "mc_b", "mc_c"], irf=irf, ic=ic, mc_scale=[2.0, 0.5, 3.0])
-    return b, {"dataset_1": _axes(time_axis("two_step", 32, -1.0 if irf else 0.0), SPECTRAL_POOL[2:6])}, inner
+    return b, {"dataset_1": _axes(time_axis("two_step", 56, -1.0 if irf else 0.0), SPECTRAL_POOL[2:6])}, inner
 
 
 def base_three_datasets(irf_kind="gaussian"):
